@@ -23,6 +23,8 @@ From TS Require Proofs.C15_PythonFile.
 From TS Require Import Spec.C15RenderKtSc.
 From TS Require Proofs.C15_KotlinFile.
 From TS Require Proofs.C15_ScalaFile.
+From TS Require Import Model.MultiFile Spec.C15MultiSpec.
+From TS Require Model.Writer Proofs.C10Multi Proofs.C15Multi Proofs.C15MultiWitness Proofs.C15MultiMore.
 Import ListNotations.
 
 (* ---- front end (after the repair of parse_comment_attrs): a doc attribute with value v - which is what `/// v`,
@@ -860,3 +862,163 @@ Theorem C15_sc_file_line_free : forall (uc : unicode) (cfg : sc_config),
     c15_contained C15sc LCode (mark (c15_file_pieces C15sc parts)) = true.
 Proof. exact Proofs.C15_ScalaFile.C15_sc_file_line_free. Qed.
 Print Assumptions C15_sc_file_line_free.
+
+(* ======================= MULTI-FILE (folder output, `-d`) MODE: TypeScript and Kotlin =======================
+   In multi-file mode every crate's file is written by ts_generate_multi / kt_generate_multi (Model/MultiFile.v): the header
+   (Kotlin: with the per-crate line `package <package>.<crate>`), then the IMPORT LINES rendered from the import map of the
+   crate - TypeScript `import { A, B } from "./<crate>";`, Kotlin `import <package>.<crate>.<A>` -, then the items in
+   topological order (and TypeScript's trailer).  The import lines are text no single-file theorem covers.  Under
+   [c15_ts_imports_ok] / [c15_kt_imports_ok] (Spec/C15MultiSpec.v, decidable: imported names plain - no character that
+   opens a comment or a literal -, the TypeScript module name free of double quote, backslash and line terminator, the
+   Kotlin crate name plain; excluded: a crate directory named with a quote / backslash / slash, a generated type name with
+   a slash or quote in it) they are code the reference lexer reads from code mode back into code mode, so they contribute
+   no doc site and the conclusions of C15_ts_file / C15_kt_file hold for the multi-file file.
+   TypeScript's printer state is threaded from crate to crate and never cleared: the statement is for ANY incoming state
+   whose collected property names are printable raw between double quotes (ts_state_ok; the empty initial state is), and
+   hands the same on; the trailer is printed as soon as the state is non-empty - also when only an EARLIER crate had a
+   Date field.  The run-level theorems start from the initial state and need no hypothesis on intermediate states. *)
+Theorem C15_ts_multi_file : forall (uc : unicode) (cfg : ts_config),
+  c15_mappings_plain C15ts (ts_type_mappings cfg) = true ->
+  forall (st : ts_state) (im : scoped) pd text (st' : ts_state),
+  c15_no_star (ts_version cfg) = true ->
+  forallb (c15_item_plain C15ts TypeScript (fun n => str_to_uppercase uc (to_snake_case uc n))) (items_of pd) = true ->
+  forallb c15_ts_item_keys_ok (items_of pd) = true ->
+  c15_ts_imports_ok im = true ->
+  Proofs.C15_TypeScript.ts_state_ok st = true ->
+  ts_generate_multi uc cfg st im pd = Ok (text, st') ->
+  exists items trailer parts,
+    topsort (items_of pd) = Ok items /\ Permutation items (items_of pd) /\
+    (trailer = [] \/ trailer = c15_ts_trailer_docs) /\
+    text = text_of (c15_file_pieces C15ts parts) /\
+    docs_of (c15_file_pieces C15ts parts) = map c15_esc_ts (flat_map c15_item_docs items ++ trailer) /\
+    c15_contained C15ts LCode (mark (c15_file_pieces C15ts parts)) = true /\
+    Proofs.C15_TypeScript.ts_state_ok st' = true.
+Proof. exact Proofs.C15Multi.C15_ts_multi_file. Qed.
+Print Assumptions C15_ts_multi_file.
+
+(* Kotlin (stateless): the crate name is printed bare in the package line, so it is plain *)
+Theorem C15_kt_multi_file : forall (uc : unicode) (cfg : kt_config),
+  c15_plain C15kt (kt_prefix cfg) = true ->
+  c15_mappings_plain C15kt (kt_type_mappings cfg) = true ->
+  c15_plain C15kt (kt_package cfg) = true ->
+  c15_version_nested_ok (kt_version cfg) = true ->
+  forall (c : str) (im : scoped) pd text,
+  forallb (c15_item_strict C15kt Kotlin) (items_of pd) = true ->
+  c15_plain C15kt c = true -> c15_kt_imports_ok im = true ->
+  kt_generate_multi uc cfg c im pd = Ok text ->
+  exists items parts,
+    topsort (items_of pd) = Ok items /\ Permutation items (items_of pd) /\
+    text = text_of (c15_file_pieces C15kt parts) /\
+    docs_of (c15_file_pieces C15kt parts) = flat_map c15_item_docs_helpers_first items /\
+    c15_contained C15kt LCode (mark (c15_file_pieces C15kt parts)) =
+    forallb safe_kt (flat_map c15_item_docs_helpers_first items).
+Proof. exact Proofs.C15Multi.C15_kt_multi_file. Qed.
+Print Assumptions C15_kt_multi_file.
+Theorem C15_kt_multi_file_line_free : forall (uc : unicode) (cfg : kt_config),
+  c15_plain C15kt (kt_prefix cfg) = true ->
+  c15_mappings_plain C15kt (kt_type_mappings cfg) = true ->
+  c15_plain C15kt (kt_package cfg) = true ->
+  c15_version_nested_ok (kt_version cfg) = true ->
+  forall (c : str) (im : scoped) pd text,
+  forallb (c15_item_strict C15kt Kotlin) (items_of pd) = true ->
+  Forall (fun it => Forall (fun d => safe_line eol_lf_cr d = true) (c15_item_docs it)) (items_of pd) ->
+  c15_plain C15kt c = true -> c15_kt_imports_ok im = true ->
+  kt_generate_multi uc cfg c im pd = Ok text ->
+  exists items parts,
+    topsort (items_of pd) = Ok items /\ Permutation items (items_of pd) /\
+    text = text_of (c15_file_pieces C15kt parts) /\
+    docs_of (c15_file_pieces C15kt parts) = flat_map c15_item_docs_helpers_first items /\
+    c15_contained C15kt LCode (mark (c15_file_pieces C15kt parts)) = true.
+Proof. exact Proofs.C15Multi.C15_kt_multi_file_line_free. Qed.
+Print Assumptions C15_kt_multi_file_line_free.
+
+(* THE WHOLE RUN (generate_crates: the crates of the plan one after the other, the printer state threaded from the initial
+   state, stopping at the first failure): for a plan all of whose entries satisfy the per-file hypotheses
+   (Proofs.C15Multi.c15_ts_plan_ok / c15_kt_plan_ok: the items, the crate name, the import map), every file that is
+   generated is code parts and comment fragments and is contained *)
+Theorem C15_ts_multi_run : forall (uc : unicode) (cfg : ts_config) (plan : list out_plan) files fin,
+  c15_mappings_plain C15ts (ts_type_mappings cfg) = true -> c15_no_star (ts_version cfg) = true ->
+  Proofs.C15Multi.c15_ts_plan_ok uc plan = true ->
+  generate_crates (fun st (_ : str) im pd => ts_generate_multi uc cfg st im pd) [] plan = (files, fin) ->
+  forall f text, In (f, Model.Writer.Generated text) files ->
+    exists parts, text = text_of (c15_file_pieces C15ts parts) /\
+                  c15_contained C15ts LCode (mark (c15_file_pieces C15ts parts)) = true.
+Proof. exact Proofs.C15Multi.C15_ts_multi_run. Qed.
+Print Assumptions C15_ts_multi_run.
+Theorem C15_kt_multi_run : forall (uc : unicode) (cfg : kt_config) (plan : list out_plan) files fin,
+  c15_plain C15kt (kt_prefix cfg) = true -> c15_mappings_plain C15kt (kt_type_mappings cfg) = true ->
+  c15_plain C15kt (kt_package cfg) = true -> c15_version_nested_ok (kt_version cfg) = true ->
+  Proofs.C15Multi.c15_kt_plan_ok plan = true ->
+  Forall (fun p => Forall (fun it => Forall (fun d => safe_line eol_lf_cr d = true) (c15_item_docs it)) (items_of (op_data p))) plan ->
+  generate_crates (fun (st : unit) c im pd => Proofs.C10Multi.wrap_unit st (kt_generate_multi uc cfg c im pd)) tt plan = (files, fin) ->
+  forall f text, In (f, Model.Writer.Generated text) files ->
+    exists parts, text = text_of (c15_file_pieces C15kt parts) /\
+                  c15_contained C15kt LCode (mark (c15_file_pieces C15kt parts)) = true.
+Proof. exact Proofs.C15Multi.C15_kt_multi_run. Qed.
+Print Assumptions C15_kt_multi_run.
+
+(* ---- MULTI-FILE MODE, Swift, Go, Python: no import lines are printed from the import map, but the multi-file generators
+   differ from the single-file ones by the printer state that arrives from the previous crate and is never cleared (Go:
+   the import paths; Python: import table, TypeVars, translated types; Swift: "CodableVoid needed", and no CodableVoid
+   trailer is printed in this mode - it goes to Codable.swift).  Under the hypotheses of C15_sw_file / C15_go_file /
+   C15_py_file (Swift: without the one on codablevoid constraints), from ANY incoming state satisfying the invariant of the
+   single-file proof (Proofs.C15_GoFile.go_inv: every import path printable between double quotes;
+   Proofs.C15_PythonFile.pyf_inv: import table plain, TypeVars plain and printable raw between double quotes; the initial
+   states satisfy them), the file of one crate has the conclusion of the single-file theorem, and hands the invariant on.
+   The import / TypeVar / helper blocks printed are those of the state reached AFTER the crate's last item, previous
+   crates' entries included.  (Scala's generate_types is one function for both modes: C15_sc_file.) ---- *)
+Theorem C15_sw_multi_file : forall (uc : unicode) (cfg : sw_config),
+  c15_sw_raw (sw_prefix cfg) = true ->
+  c15_mappings_plain C15sw (sw_type_mappings cfg) = true ->
+  forallb (c15_plain C15sw) (sw_default_decorators cfg) = true ->
+  forallb (c15_plain C15sw) (sw_default_generic_constraints cfg) = true ->
+  c15_sw_version_ok (sw_version cfg) = true ->
+  forall (st : sw_state) pd text (st' : sw_state),
+  forallb c15_sw_item_ok (items_of pd) = true ->
+  sw_generate_multi uc cfg st pd = Ok (text, st') ->
+  exists items parts,
+    topsort (items_of pd) = Ok items /\ Permutation items (items_of pd) /\
+    text = text_of (c15_file_pieces C15sw parts) /\
+    docs_of (c15_file_pieces C15sw parts) = flat_map (c15_sw_item_docs uc) items /\
+    c15_contained C15sw LCode (mark (c15_file_pieces C15sw parts)) =
+    forallb safe_sw (flat_map (c15_sw_item_docs uc) items).
+Proof. exact Proofs.C15MultiMore.C15_sw_multi_file. Qed.
+Print Assumptions C15_sw_multi_file.
+
+Theorem C15_go_multi_file : forall (uc : unicode), unicode_ok uc -> forall (cfg : go_config),
+  c15_go_mappings_ok (go_type_mappings cfg) = true ->
+  forallb (forallb is_ascii) (go_uppercase_acronyms cfg) = true ->
+  c15_plain C15go (go_package cfg) = true ->
+  forall (st : go_state) pd text (st' : go_state),
+  forallb c15_go_item_ok (items_of pd) = true -> Proofs.C15_GoFile.go_inv st ->
+  go_generate_multi uc cfg st pd = Ok (text, st') ->
+  let header := if go_no_version_header cfg then []
+                else [lit "Code generated by typeshare " ++ go_version cfg ++ lit ". DO NOT EDIT."] in
+  exists items parts,
+    topsort (items_of pd) = Ok items /\ Permutation items (items_of pd) /\
+    text = text_of (c15_file_pieces C15go parts) /\
+    docs_of (c15_file_pieces C15go parts) = header ++ flat_map c15_item_docs_helpers_first items /\
+    c15_contained C15go LCode (mark (c15_file_pieces C15go parts)) =
+    forallb safe_go (header ++ flat_map c15_item_docs_helpers_first items) /\
+    Proofs.C15_GoFile.go_inv st'.
+Proof. exact Proofs.C15MultiMore.C15_go_multi_file. Qed.
+Print Assumptions C15_go_multi_file.
+
+Theorem C15_py_multi_file : forall (uc : unicode), unicode_ok uc -> forall (cfg : py_config),
+  c15_mappings_plain C15py (py_type_mappings cfg) = true ->
+  c15_py_version_ok (py_version cfg) = true ->
+  forall (st : py_state) pd text (st' : py_state),
+  forallb c15_py_item_ok (items_of pd) = true ->
+  forallb c15_py_item_typevars_ok (items_of pd) = true ->
+  Proofs.C15_PythonFile.pyf_inv st ->
+  py_generate_multi uc cfg st pd = Ok (text, st') ->
+  let header := if py_no_version_header cfg then [] else [c15_py_header_line (py_version cfg)] in
+  exists items parts,
+    topsort (items_of pd) = Ok items /\ Permutation items (items_of pd) /\
+    text = text_of (c15_file_pieces C15py parts) /\
+    docs_of (c15_file_pieces C15py parts) = header ++ map (c15_site_text C15py) (flat_map c15_py_item_sites items) /\
+    c15_contained C15py LCode (mark (c15_file_pieces C15py parts)) =
+      forallb (c15_site_ok C15py) (flat_map c15_py_item_sites items) /\
+    Proofs.C15_PythonFile.pyf_inv st'.
+Proof. exact Proofs.C15MultiMore.C15_py_multi_file. Qed.
+Print Assumptions C15_py_multi_file.
